@@ -38,10 +38,28 @@ INVARIANT InvNormalised
 INVARIANT InvNonNegative
 INVARIANT InvAdditive
 INVARIANT InvCellwise
+INVARIANT InvPointwise
 """
 MESH_ACTIONS = ["ChooseCase", "RelativeGridAddress", "NeighbourLookup", "Tabulate", "Integrate", "Accumulate"]
 
 MESHES_SMALL = [[2, 2, 1], [3, 2, 1], [1, 2, 2], [2, 1, 3], [2, 2, 2], [3, 1, 1], [1, 1, 1]]
+
+
+ORDERS = ["ascending", "descending", "shuffled", "repeated"]
+
+
+def reorder(ws, i, rng):
+    """the frequency list in one of the orders the property quantifies over"""
+    kind = ORDERS[i % 4]
+    ws = sorted(ws)
+    if kind == "descending":
+        return ws[::-1]
+    if kind == "shuffled":
+        out = [ws[j] for j in rng.permutation(len(ws))]
+        return out if out != ws else ws[1:] + ws[:1]
+    if kind == "repeated":  # highest first, lowest twice, not monotone
+        return [ws[-1], ws[0]] + ws[1:-1] + [ws[0]]
+    return ws
 
 
 def model_cases(ctx):
@@ -55,6 +73,7 @@ def model_cases(ctx):
                               ["spglib", "canonical", "shifted"][i % 3], nb=1 + (i % 2), ncoef=3,
                               vals=[0, 2, 4] if i % 4 else [0, 2], ws=[1, 2, 5] if i % 2 else [0, 3, 4])
         case["diag"] = i % 4  # every division is a legal one for the model
+        case["ws"] = reorder(case["ws"], i, rng)
         cases.append(case)
     if not ctx.quick:
         # every two-level field on the 2x2x1 mesh, every main diagonal
@@ -120,6 +139,11 @@ INVARIANT ImplCellwiseC
 INVARIANT ImplDosKernel
 INVARIANT ImplDosKernelNonNegative
 INVARIANT ImplDosKernelAdditive
+INVARIANT ImplAscIsOrder
+INVARIANT ImplPointwiseKernel
+INVARIANT ImplOrderIndependentKernel
+INVARIANT ImplOrderIndependentMeshC
+INVARIANT ImplOrderIndependentMeshPy
 INVARIANT ConformsShortestDiagonal
 INVARIANT ConformsTablePy
 INVARIANT ConformsLookupPy
@@ -142,7 +166,7 @@ def trace_cases(ctx):
         G = M.GRAMS[(i + ctx.seed) % len(M.GRAMS)]
         vals = [0, 2, 4] if i % 3 else [0, 2, 4, 6]
         want = "offtie" if i % 2 == 0 else "tie"
-        ws = [1, 3, 5] if want == "offtie" else [2, 4, 7]
+        ws = [1, 3, 7] if want == "offtie" else [2, 4, 7]
         if i % 4 == 2:
             ws = [-1, 1, 3]
         for _ in range(20):
@@ -152,6 +176,7 @@ def trace_cases(ctx):
             cls = "tie" if any(w in allv for w in case["ws"]) else "offtie"
             if cls == want and len(allv) > 1:
                 break
+        case["ws"] = reorder(case["ws"], i // 2 + 1, rng)   # both classes see every order
         out.append((case, metric, G, cls))
     return out
 
@@ -168,10 +193,21 @@ def step_d(ctx):
         diags.add(tuple(M.shortest_diags(metric)))
         ctx.count(("meshtrace", tuple(case["mesh"]), str(G), tuple(case["map"]), str(case["irvals"]), tuple(case["ws"])))
     # no vacuity: densities are non-zero, also in an event whose mapping merges grid points
+    # (judged on the INPUT, not on what the code returned: a frequency strictly inside the range of a
+    # band of the continuous periodic interpolant has positive density)
     def nonzero(e):
-        return any(x[0] != 0 for row in e["dosK"]["I"] for x in row)
+        return any(min(b) < w < max(b) for b in e["cs"]["irvals"] for w in e["cs"]["ws"])
     if not any(nonzero(e) and e["cs"]["map"] != list(range(len(e["cs"]["map"]))) for e in events if e["cls"] == "offtie"):
         raise tlcmod.MachineryError("mesh traces: no off-tie event with merged grid points and non-zero density")
+    # no vacuity: a frequency list that is not ascending and has a point inside the spectrum after a point above it
+    def unsorted_inside(e):
+        ws, top = e["cs"]["ws"], max(x for b in e["cs"]["irvals"] for x in b)
+        return any(ws[j] > top and any(w < top for w in ws[j + 1:]) for j in range(len(ws))) and nonzero(e)
+    if not any(unsorted_inside(e) for e in events):
+        raise tlcmod.MachineryError("mesh traces: no event with a non-ascending frequency list reaching above the spectrum")
+    ctx.extra["D_frequency_orders"] = sorted(set(
+        "ascending" if e["cs"]["ws"] == sorted(e["cs"]["ws"]) else
+        "descending" if e["cs"]["ws"] == sorted(e["cs"]["ws"], reverse=True) else "shuffled/repeated" for e in events))
     from harness.props.c11 import report
 
     def describe(e, st):
